@@ -354,6 +354,41 @@ func viaProcessorService(settings map[string]string, ceiling egress.Policy) (egr
 	return reg.got[n], reg.got[:n], nil
 }
 
+// viaReconfigure is the live-reconfigure hand-off: the processor is created and
+// started with NO egress settings, its stored config is then replaced while it
+// runs (UpdateWhileRunning) and the processor for the swap is built with
+// MakeRunnableProcessorForReconfigure. Returns the policy the registry was
+// handed for that rebuilt processor.
+func viaReconfigure(settings map[string]string, ceiling egress.Policy) (egress.Policy, error) {
+	ctx := context.Background()
+	reg := &captureRegistry{}
+	svc := processor.NewService(log.Nop(), &inmemory.DB{}, reg, processor.WithEgressCeiling(ceiling))
+	inst, err := svc.Create(ctx, "p1", "fake", processor.Parent{ID: "pl", Type: processor.ParentTypePipeline},
+		processor.Config{Settings: map[string]string{}, Workers: 1}, processor.ProvisionTypeAPI, "")
+	if err != nil {
+		return egress.Policy{}, err
+	}
+	if _, err := svc.MakeRunnableProcessor(ctx, inst); err != nil {
+		return egress.Policy{}, err
+	}
+	st := map[string]string{}
+	for k, v := range settings {
+		st[k] = v
+	}
+	inst, err = svc.UpdateWhileRunning(ctx, "p1", "fake", processor.Config{Settings: st, Workers: 1})
+	if err != nil {
+		return egress.Policy{}, err
+	}
+	n := len(reg.got)
+	if _, err := svc.MakeRunnableProcessorForReconfigure(ctx, inst); err != nil {
+		return egress.Policy{}, err
+	}
+	if len(reg.got) != n+1 {
+		return egress.Policy{}, fmt.Errorf("registry was not asked for a processor")
+	}
+	return reg.got[n], nil
+}
+
 func runPolicyCase(idx int, n int, ck, pk string, r *rand.Rand) vp.CaseResult {
 	a := &polAcc{idx: idx, stats: map[string]int64{}, viol: map[string]*vp.Violation{}}
 	var sample any
@@ -375,6 +410,12 @@ func runPolicyCase(idx int, n int, ck, pk string, r *rand.Rand) vp.CaseResult {
 			} else {
 				a.stats["policy_service_handoffs_judged"]++
 				a.judgePolicy("processor.Service.MakeRunnableProcessor", per, ceiling, got, c)
+				if got2, err := viaReconfigure(settings, ceiling); err != nil {
+					a.stats["policy_service_handoff_errors"]++
+				} else {
+					a.stats["policy_reconfigure_handoffs_judged"]++
+					a.judgePolicy("processor.Service.MakeRunnableProcessorForReconfigure", per, ceiling, got2, c)
+				}
 				for _, e := range existence {
 					// "non-data-path NewProcessor calls get deny-all"
 					if e.Enabled {
